@@ -27,7 +27,7 @@ KINDS = ['diff-not-consistent', 'merge-not-library', 'store-wrong-location', 'st
 def _known(kind):
     best = None
     for prefix, fid in KNOWN.items():
-        if kind.startswith(prefix) and (best is None or len(prefix) > len(best[0])):
+        if common.kind_matches(kind, prefix) and (best is None or len(prefix) > len(best[0])):
             best = (prefix, fid)
     return best[1] if best else None
 
